@@ -7,7 +7,8 @@ Import TlsPolicy Wire.
 Definition today : tables :=
   {| tb_auth := auth_sets; tb_ctl := ctl_sites; tb_enc := enc_sites; tb_calls := call_keys;
      tb_lits := msg_lits; tb_writes := clear_writes; tb_flows := marshal_flows; tb_crw := crypto_rw_shape;
-     tb_sniff := sniff_sites; tb_listeners := listener_calls |}.
+     tb_sniff := sniff_sites; tb_listeners := listener_calls;
+     tb_tls_uses := tls_uses; tb_tls_origin := tls_origin_args; tb_tls_server_calls := sniff_tls_server_calls |}.
 
 Inductive case :=
 (* real CheckAndEnableTLSServerConnWithTimeout on a connection whose peer sends byte b first.
@@ -33,8 +34,9 @@ Inductive case :=
    (observed), and after the observer also opened, with the key derived from the empty string, the
    cipher streams of a configuration whose token is empty (observed_public; = observed otherwise) *)
 | CWire (cfg : wcfg) (hist : list wevent) (observed observed_public : list atom) (session_up : bool)
-(* certificate matrix: did a session come up / did the server interpret a protocol message *)
-| CCert (server_ca client_cert_ok client_has_cert client_ca name_matches ca_matches : bool) (session_up : bool).
+(* certificate matrix: did a session come up / did the server interpret a protocol message.
+   transport: 0 tcp (tls listener of the muxer), 1 kcp, 2 websocket, 3 quic *)
+| CCert (transport : Z) (server_ca client_cert_ok client_has_cert client_ca name_matches ca_matches : bool) (session_up : bool).
 
 Definition beq (a b : bool) : bool := Bool.eqb a b.
 
@@ -130,8 +132,16 @@ Definition check_case (c : case) : Z :=
       else if negb (subset observed_public (visible_all (public cfg) w)) then 54
       else if up && negb (subset (visible_sure_all (public cfg) w) observed_public) then 55
       else 0
-  | CCert server_ca client_cert_ok client_has_cert client_ca name_matches ca_matches up =>
-      if beq (cert_expect server_ca client_cert_ok client_has_cert client_ca name_matches ca_matches) up then 0 else 60
+  | CCert transport server_ca client_cert_ok client_has_cert client_ca name_matches ca_matches up =>
+      let l := if transport =? 1 then LkKcp else if transport =? 2 then LkWebsocket
+               else if transport =? 3 then LkQuic else LkTlsMux in
+      (* the policy in force on that listener must be the configured one (today's tables) ... *)
+      match listener_policy today (mk_server_policy SelfSigned NoClientCert None) l with
+      | None => 61
+      | Some _ =>
+          (* ... and then the outcome is the transport-independent one *)
+          if beq (cert_expect server_ca client_cert_ok client_has_cert client_ca name_matches ca_matches) up then 0 else 60
+      end
   end.
 
 (* property monitor on an observed capture: no secret marker readable; nothing readable under TLS *)
